@@ -59,7 +59,8 @@ def r1(chk):
     v_none = ev.inline(fc, StructV("OptionalParenthesizedTokenStream", {"content": Tag("None", [], "Option")}), [])
     x = SymObj("X", ("toks",))
     v_some = ev.inline(fc, StructV("OptionalParenthesizedTokenStream", {"content": Tag("Some", [x], "Option")}), [])
-    chk.expect("R1", "OptionalParenthesizedTokenStream::content", isinstance(v_none, Toks) and not v_none.toks and v_some is x, ATTR, fc.line,
+    none_empty = (isinstance(v_none, Toks) and not v_none.toks) or (vkey(v_none) == "Default::default()" and "TokenStream" in (fc.node["sig"].get("output") or ""))
+    chk.expect("R1", "OptionalParenthesizedTokenStream::content", none_empty and v_some is x, ATTR, fc.line,
                "content() must be identity on the group's tokens and empty when there is no group", found=[vkey(v_none), vkey(v_some)])
     # ::parse: parenthesised group only
     fp = repo.fn(ATTR, "parse", impl="OptionalParenthesizedTokenStream")
